@@ -1362,9 +1362,9 @@ func TestCheck(t *testing.T) {
 	kInt := evid.NewKind(rec, "int", judgeInt)
 	kHist := evid.NewKind(rec, "history", judgeHistory).DeclareEach()
 	// the same judges from several goroutines at once (documents the library hashes, the heaviest kept)
-	pDoc := tdgen.NewHeavyPool(rec, "concurrent-doc", judgeDocPure, 64)
-	pInt := tdgen.NewHeavyPool(rec, "concurrent-int", judgeInt, 64)
-	pHist := tdgen.NewHeavyPool(rec, "concurrent-history", judgeHistory, 32)
+	pDoc := evid.NewPool(rec, "concurrent-doc", judgeDocPure, 64).DeclareEach()
+	pInt := evid.NewPool(rec, "concurrent-int", judgeInt, 64).DeclareEach()
+	pHist := evid.NewPool(rec, "concurrent-history", judgeHistory, 32).DeclareEach()
 	rec.Corpus(t)
 
 	// bounded exhaustive: every integer type x boundary values x positions (all spellings inside the judge)
@@ -1461,9 +1461,9 @@ func TestCheck(t *testing.T) {
 		})
 	})
 
-	pDoc.Run(t, "concurrent-doc", 8, 3, 16)
-	pInt.Run(t, "concurrent-int", 8, 3, 16)
-	pHist.Run(t, "concurrent-history", 8, 2, 8)
+	pDoc.Run(t, 8, 3, 16)
+	pInt.Run(t, 8, 3, 16)
+	pHist.Run(t, 8, 2, 8)
 }
 
 func TestReplay(t *testing.T) {
@@ -1471,9 +1471,9 @@ func TestReplay(t *testing.T) {
 	evid.NewKind(rec, "doc", judgeDoc).DeclareEach()
 	evid.NewKind(rec, "int", judgeInt)
 	evid.NewKind(rec, "history", judgeHistory).DeclareEach()
-	tdgen.NewHeavyPool(rec, "concurrent-doc", judgeDocPure, 0)
-	tdgen.NewHeavyPool(rec, "concurrent-int", judgeInt, 0)
-	tdgen.NewHeavyPool(rec, "concurrent-history", judgeHistory, 0)
+	evid.NewPool(rec, "concurrent-doc", judgeDocPure, 0).DeclareEach()
+	evid.NewPool(rec, "concurrent-int", judgeInt, 0).DeclareEach()
+	evid.NewPool(rec, "concurrent-history", judgeHistory, 0).DeclareEach()
 	rec.Replay(t)
 }
 
